@@ -254,8 +254,17 @@ pub fn gen_plan(property: &str, seed: u64, index: u64, tier: Tier) -> Plan {
                             }
                         }
                     }
+                    // ... and drop a few enemy pieces into the middle of the board, so that a book move can
+                    // also be blocked, pinned, or illegal because the king is in check
+                    for _ in 0..rng.range(0, 3) {
+                        let s = rng.range(16, 47);
+                        if p.sq[s].is_none() {
+                            let piece = *rng.pick(&[P::Knight, P::Bishop, P::Rook, P::Queen, P::Pawn]);
+                            p.sq[s] = Some((piece, if rng.chance(3, 4) { Side::Black } else { Side::White }));
+                        }
+                    }
                     p.rights = 0;
-                    if rng.chance(1, 2) {
+                    if rng.chance(1, 3) {
                         p.stm = Side::Black;
                     }
                     if !p.is_consistent() {
